@@ -36,9 +36,18 @@ func (t *Term) String() string {
 	case "global":
 		b.WriteString("&" + t.Obj.Pkg().Name() + "." + t.Obj.Name())
 	case "fieldaddr":
-		b.WriteString("&" + strings.TrimPrefix(t.Args[0].String(), "&") + "." + t.Obj.Name())
+		// a field promoted from an embedded struct is named as Go names it: d.octave for d.keyboardState.octave
+		base := t.Args[0]
+		if base.Op == "fieldaddr" && promotedThrough(base, t) {
+			base = base.Args[0]
+		}
+		b.WriteString("&" + strings.TrimPrefix(base.String(), "&") + "." + t.Obj.Name())
 	case "field":
-		b.WriteString(t.Args[0].String() + "." + t.Obj.Name())
+		base := t.Args[0]
+		if base.Op == "field" && promotedThrough(base, t) {
+			base = base.Args[0]
+		}
+		b.WriteString(base.String() + "." + t.Obj.Name())
 	case "load":
 		a := t.Args[0]
 		s := a.String()
@@ -246,3 +255,17 @@ func termsString(ts []*Term) string {
 }
 
 func sprintf(f string, a ...any) string { return fmt.Sprintf(f, a...) }
+
+// promotedThrough: hop selects an embedded (anonymous) struct field and sel a field of that struct which the enclosing
+// struct does not declare itself: sel is a promoted field.
+func promotedThrough(hop, sel *Term) bool {
+	hv, ok := hop.Obj.(*types.Var)
+	if !ok || !hv.Embedded() {
+		return false
+	}
+	sv, ok := sel.Obj.(*types.Var)
+	if !ok {
+		return false
+	}
+	return hv.Name() != sv.Name()
+}
